@@ -68,6 +68,10 @@ Proof.
         destruct (IH bc i (newline i :: out) ltac:(lia)) as (s' & E & R).
         exists (newline i ++ s'). rewrite E, concat_rev_cons, sapp_assoc. split; [reflexivity|].
         cbn [flat_stack]. unfold flat. cbn [flat_acc app]. destruct (blank_newline i). now constructor.
+      * (* comment: "//", newline, indentation *)
+        destruct (IH bc i (spaces i :: comment_text :: out) ltac:(lia)) as (s' & E & R).
+        exists (atom_text AComment ++ spaces i ++ s'). rewrite E, !concat_rev_cons, !sapp_assoc. split; [reflexivity|].
+        cbn [flat_stack]. unfold flat. cbn [flat_acc app]. constructor. constructor; [apply blank_spaces | assumption].
       * (* append *)
         destruct (IH ((i, f, d1) :: (i, f, d2) :: bc) pos out ltac:(cbn [stack_size]; lia)) as (s' & E & R).
         exists s'. split; [exact E|]. cbn [flat_stack] in *. now rewrite flat_append, <- app_assoc.
